@@ -311,20 +311,21 @@ EvalSeq(I, A, brk) ==
 \*   moves from L0 towards L0 + looseness as far as some feasible sequence allows; among the
 \*   sequences with that many lines, the fewest demerits.  A pass that is not final fails unless
 \*   the full looseness was reached.
-\* Want(I, S) = the set of acceptable <<lines, demerits>> ({} = the pass must fail); a set because
-\* two optimal sequences may differ in their number of lines.
+\* Want(I, S) = the set of acceptable answers <<lines, demerits>>, with Fail = <<0, 0>> standing
+\* for "the pass fails".  A set, because two sequences with the fewest demerits may differ in their
+\* number of lines and each of them is a legitimate L0.
+Fail == <<0, 0>>
 Want(I, S) ==
   LET dmin  == SetMin({x[2] : x \in S})
       lines == {x[1] : x \in S}
       best(L) == SetMin({x[2] : x \in {y \in S : y[1] = L}})
   IN IF I.loose = 0 THEN {x \in S : x[2] = dmin}
-     ELSE { <<L, best(L)>> : L \in
-              { LET L0   == x[1]
-                    cand == IF I.loose > 0 THEN {L \in lines : L0 <= L /\ L <= L0 + I.loose}
-                            ELSE {L \in lines : L0 + I.loose <= L /\ L <= L0}
-                    L1   == IF I.loose > 0 THEN SetMax(cand) ELSE SetMin(cand)
-                IN IF I.final \/ L1 - L0 = I.loose THEN L1 ELSE -1
-                : x \in {y \in S : y[2] = dmin} } \ {-1} }
+     ELSE { LET L0   == x[1]
+                cand == IF I.loose > 0 THEN {L \in lines : L0 <= L /\ L <= L0 + I.loose}
+                        ELSE {L \in lines : L0 + I.loose <= L /\ L <= L0}
+                L1   == IF I.loose > 0 THEN SetMax(cand) ELSE SetMin(cand)
+            IN IF I.final \/ L1 - L0 = I.loose THEN <<L1, best(L1)>> ELSE Fail
+            : x \in {y \in S : y[2] = dmin} }
 
 \* The judgement.  "ok" or the reason for rejection; "skip-..." = outside the quantifier.
 Judge(I, A, out) ==
@@ -335,11 +336,14 @@ Judge(I, A, out) ==
   ELSE IF A.S = {} THEN
          (IF out.k = "none" THEN "ok" ELSE "solution-but-no-feasible-sequence")
   ELSE LET want == Want(I, A.S) IN
-       IF out.k = "none" THEN (IF want = {} THEN "ok" ELSE "none-but-feasible-sequence-exists")
+       IF out.k = "none"
+       THEN (IF Fail \in want THEN "ok"
+             ELSE IF I.loose = 0 THEN "none-but-feasible-sequence-exists"
+             ELSE "none-but-looseness-can-be-reached")
        ELSE LET r == EvalSeq(I, A, out.brk) IN
             IF ~r.ok THEN "solution-not-feasible"
-            ELSE IF want = {} THEN "solution-but-looseness-not-reached"
             ELSE IF <<r.lines, r.dem>> \in want THEN "ok"
+            ELSE IF want = {Fail} THEN "solution-but-looseness-not-reached"
             ELSE IF \E x \in want : x[1] = r.lines THEN "solution-not-optimal"
             ELSE "solution-wrong-number-of-lines"
 
